@@ -137,7 +137,7 @@ def oracle(g, r):
                 F('the parent structure has a cycle through item %d (lookups would not terminate)' % x, epoch=e); break
             roots[x] = rt
             if par[x] != x and not ((rank[x], x) < (rank[par[x]], par[x])):
-                F('item %d (rank %d) has parent %d (rank %d): (rank, item) does not increase towards the root' % (x, rank[x], par[x], rank[par[x]]), epoch=e)
+                F('item %d (rank %d) has parent %d (rank %d): (rank, item) does not increase towards the root (the invariant of the model DisjointSet.Inv does not hold on the real structure)' % (x, rank[x], par[x], rank[par[x]]), epoch=e, level='model')
         if len(roots) != len(items):
             continue
         stats['items'] = len(items); stats['max_rank'] = max(stats['max_rank'], max(rank.values(), default=0))
